@@ -53,7 +53,7 @@ class Recorder:
         return namedtuple("Out", self.fields)(*bufs)
 
 
-def nsteps_case(cls_name, dt_kind):
+def nsteps_case(cls_name, dt_kind, with_init=False):
     import importlib
 
     modname, gen, fields = PRIMARIES[cls_name]
@@ -84,13 +84,21 @@ def nsteps_case(cls_name, dt_kind):
             from pfhedge.instruments import EuropeanOption
 
             d = EuropeanOption(p, maturity=M)
-            d.simulate(n_paths=2)
+            if with_init:
+                # an explicit initial state goes through the same grid (maturity still decides the number of steps)
+                s0 = api.real(c, "s0", pos=True)
+                d.simulate(n_paths=2, init_state=(s0,))
+            else:
+                d.simulate(n_paths=2)
         finally:
             setattr(mod, gen, old)
         c.check("generator called once", len(rec.calls) == 1)
         ns = rec.calls[0]["n_steps"]
         want = api.ceilv(q) + 1
         c.check("n_steps == ceil(M/dt)+1", api.eq(ns, want))
+        if with_init:
+            got = rec.calls[0].get("init_state")
+            c.check("generator receives the caller's initial state", got is not None and len(got) == 1 and (got[0] is s0 or api.eq(got[0], s0)))
         c.check("generator receives the instrument's dt", rec.calls[0]["dt"] is dt or api.eq(rec.calls[0]["dt"], dt))
         T = int(ns)
         for f in fields:
@@ -184,6 +192,9 @@ def cases():
     for name in PRIMARIES:
         cs.append(Case("nsteps/%s/dt=sym" % name, nsteps_case(name, "sym"), encodes=enc, bounds="symbolic dt>0, maturity=q*dt, 0<q<=6",
                        max_paths=16, timeout=30))
+    for name in ("BrownianStock", "VasicekRate", "MertonJumpStock"):
+        cs.append(Case("nsteps/%s/dt=sym/init_state" % name, nsteps_case(name, "sym", with_init=True), encodes=enc,
+                       bounds="symbolic dt>0, maturity=q*dt, 0<q<=6; derivative.simulate(init_state=(s0,))", max_paths=16, timeout=30))
     for dtv in (1 / 250, 0.1):
         cs.append(Case("nsteps/BrownianStock/dt=%r" % dtv, nsteps_case("BrownianStock", dtv), encodes=enc,
                        bounds="dt=%r (the double, exactly), all real 0<M<=5.5dt" % dtv, max_paths=16))
